@@ -334,6 +334,23 @@ func checkC20(c *Checker) {
 			c.degenerateRun(fn, sc)
 		}
 	}
+	// a pool built from a zero-channel allocator: putting back the buffer it handed out must not panic
+	if fn := c.anchor("C20-Z3", "(*PoolAllocator[T]).Put"); fn != nil && len(fn.Params) == 2 {
+		p, b := paramName(fn, 0), paramName(fn, 1)
+		asm := map[string]*Term{p + ".alloc.Channels": zeroI(), b + ".channels": zeroI(), "len(" + b + ".data)": zeroI(), "cap(" + b + ".data)": zeroI()}
+		s := c.runAssumed(fn, asm)
+		inst := shortFn(c.W, fn) + " @ zero-channel pool"
+		if !c.undecidedEffects("C20-Z3", inst, s) {
+			okP := true
+			d := ""
+			for _, o := range s.Outcomes {
+				if o.Kind == OPanic {
+					okP, d = false, "Put of the pool's own zero-channel buffer can panic: "+factsBrief(o.St.facts)
+				}
+			}
+			c.expect(okP, "C20-Z3", inst, c.pos(fn.Pos()), "no panic path", d)
+		}
+	}
 	// ChannelLength with zero channels / zero length
 	if fn := c.anchor("C20-Z2", "ChannelLength"); fn != nil {
 		c.degenerateRun(fn, degenerate{"zero-channels", map[string]*Term{paramName(fn, 1): zeroI()}})
